@@ -688,9 +688,77 @@ class Body:
             self._path = None
         return out
 
+    def _field_write_on_path(self, p, depth, seen):
+        """path mode only: `l.f` (or `l.f.g..`) read after `l.f = v` — directly or through a `&mut l` handed to a spliced helper — is v"""
+        pth = getattr(self, '_path', None)
+        pr = p.get('pr') or []
+        if not pth or not pr or not (isinstance(pr[0], dict) and 'f' in pr[0]):
+            return None
+        l, f0 = p['l'], pr[0]['f']
+        dpos = lambda bb_, i_: (pth[bb_], i_)
+        lim = getattr(self, '_use_pos', None) or (1 << 30, 1 << 31)
+        pd = self.partial_defs()
+        defs = self.defs()
+
+        def mut_refs_of(l_):
+            # locals that are `&mut l_` (also after being copied / moved into another local, e.g. a spliced helper's parameter)
+            out_ = set()
+            for r_, ds_ in defs.items():
+                if len(ds_) == 1 and ds_[0][0] == 'stmt' and isinstance(ds_[0][3], dict) and 'ref' in ds_[0][3] and ds_[0][3].get('mut') and ds_[0][3]['ref'].get('l') == l_ and not ds_[0][3]['ref'].get('pr'):
+                    out_.add(r_)
+            for _ in range(3):
+                for r_, ds_ in defs.items():
+                    if r_ in out_ or len(ds_) != 1 or ds_[0][0] != 'stmt' or not isinstance(ds_[0][3], dict) or 'use' not in ds_[0][3]:
+                        continue
+                    u_ = ds_[0][3]['use'].get('mv') or ds_[0][3]['use'].get('cp')
+                    if isinstance(u_, dict) and not u_.get('pr') and u_.get('l') in out_:
+                        out_.add(r_)
+            return out_
+        cands = []
+        for hop in range(4):
+            for d in pd.get(l, []):
+                if d[0] == 'stmt' and d[1] in pth and d[4].get('pr') and isinstance(d[4]['pr'][0], dict) and d[4]['pr'][0].get('f') == f0 and len(d[4]['pr']) <= len(pr):
+                    cands.append((dpos(d[1], d[2]), d, d[4]['pr']))
+            for r in mut_refs_of(l):
+                for d in pd.get(r, []):
+                    if d[0] == 'stmt' and d[1] in pth and len(d[4].get('pr') or []) >= 2 and d[4]['pr'][0] == '*' and isinstance(d[4]['pr'][1], dict) and d[4]['pr'][1].get('f') == f0 and len(d[4]['pr']) - 1 <= len(pr):
+                        cands.append((dpos(d[1], d[2]), d, d[4]['pr'][1:]))
+            cands = [c for c in cands if c[0] < lim and all(isinstance(a, dict) and isinstance(b, dict) and a.get('f') == b.get('f') for a, b in zip(c[2], pr))]
+            if cands:
+                break
+            # the value was moved / copied here whole from another local: look at that one, up to the point of the move
+            ds_ = [x for x in defs.get(l, []) if x[1] in pth and (pth[x[1]], x[2] if x[0] == 'stmt' else 1 << 30) < lim]
+            if len(ds_) != 1 or ds_[0][0] != 'stmt' or not isinstance(ds_[0][3], dict) or 'use' not in ds_[0][3]:
+                break
+            u_ = ds_[0][3]['use'].get('mv') or ds_[0][3]['use'].get('cp')
+            if not isinstance(u_, dict) or u_.get('pr') or len(defs.get(l, [])) != 1:
+                break
+            lim = (pth[ds_[0][1]], ds_[0][2])
+            l = u_['l']
+        if not cands:
+            return None
+        pos, d, wpr = max(cands, key=lambda c: c[0])
+        # a later whole assignment of l overrides the field write
+        whole = [self._path[x[1]] for x in self.defs().get(l, []) if x[1] in pth and (pth[x[1]], x[2] if x[0] == 'stmt' else 1 << 30) < lim]
+        if whole and max(whole) > pos[0]:
+            return None
+        old = getattr(self, '_use_pos', None)
+        self._use_pos = pos
+        try:
+            base = self._origin_def(('stmt', d[1], d[2], d[3]), depth + 1, seen)
+        finally:
+            self._use_pos = old
+        return base, len(wpr)
+
     def _origin_place(self, p, depth, seen):
-        base = self._origin_local(p['l'], depth + 1, seen)
-        for e in p.get('pr', []):
+        fw = self._field_write_on_path(p, depth, seen) if getattr(self, '_path', None) else None
+        if fw is not None:
+            base, skip = fw
+            rest = (p.get('pr') or [])[skip:]
+        else:
+            base = self._origin_local(p['l'], depth + 1, seen)
+            rest = p.get('pr', [])
+        for e in rest:
             if e == '*':
                 # deref of a ref term collapses
                 if base[0] == 'ref':
